@@ -89,3 +89,24 @@ package cache
 // GetFile returns a file name only if the file currently has the size recorded in the index entry.
 //@ func GetFile
 //@   ensures [size] err == nil ==> file == c.OutputFile(entry.OutputID) && fileSize(file) == entry.Size
+
+//@ prop C04
+
+// Ghost view of a Hash: the sequence of records written to it so far (each record an abstract
+// value determined by a format string and its arguments, see fmt.Fprintf in the users).
+//@ ghostfield Hash.input []int
+//@ ghost saltRec() int
+//@ ghost digest(input []int) [32]byte
+// NewHash returns a fresh hash that has absorbed the salt and nothing else. (The name is a
+// debugging label and is NOT part of the hashed input.)
+//@ func NewHash
+//@   trusted
+//@   ensures result != nil && !old(allocated(result)) && len(result.input) == 1 && result.input[0] == saltRec()
+//@ func (*Hash).Sum
+//@   trusted
+//@   ensures result == digest(h.input)
+// contentHash(name): SHA-256 of the file called name
+//@ ghost contentHash(name string) [32]byte
+//@ func FileHash
+//@   trusted
+//@   ensures result1 == nil ==> result0 == contentHash(file)
